@@ -31,11 +31,10 @@ def all_units():
             continue
         for fn in sorted(lib.contracts[cls]):
             out.append(("stores", cls, fn))
-    for name in ("edges", "nodes_sl"):
-        try:
-            lib = get_lib(name)
-        except ImportError:
+    for name in ("edges", "qstore", "nodes"):
+        if not os.path.exists(os.path.join(ROOT, "contracts", name + ".py")):
             continue
+        lib = get_lib(name)
         for cls in lib.classes():
             for fn in sorted(lib.contracts[cls]):
                 out.append((name, cls, fn))
